@@ -385,6 +385,16 @@ class EArr(numpy.ndarray):
         self._at = new
 
     def __setitem__(self, key, value):
+        if isinstance(key, EArr) and key._es == z3.BoolSort():
+            # a[mask] = scalar : elementwise (mask of the same shape)
+            if key.ndim != self.ndim:
+                raise Unsupported("boolean mask assignment with a mask of different rank")
+            if isinstance(value, (EArr, numpy.ndarray)) and getattr(value, "ndim", 0) > 0:
+                raise Unsupported("boolean mask assignment of an array value")
+            tv = _t(value)
+            m = key._at
+            self._write(lambda *i: m(*i), lambda *i: tv)
+            return
         key = self._expand_key(key)
         if any(isinstance(k, (numpy.ndarray, list)) for k in key):
             return self._fancy_set(key, value)
